@@ -272,8 +272,24 @@ class Fn:
 
 
 # ------------------------------------------------------------------------------------------------ sink finders
-def sinks_frame_columns(F, frame_names):
+def frame_names_of(F):
+    """local names bound to a pandas frame: assigned from pd.DataFrame(..)/pd.DataFrame.from_dict(..), or parameters
+    annotated `pd.DataFrame`"""
+    names = set()
+    for nm, vals in F.assigns.items():
+        if any(isinstance(v, ast.Call) and call_name(v) in ("pd.DataFrame", "pd.DataFrame.from_dict") for v in vals):
+            names.add(nm)
+    a = F.fn.args
+    for x in a.posonlyargs + a.args + a.kwonlyargs:
+        if x.annotation is not None and "DataFrame" in ast.unparse(x.annotation):
+            names.add(x.arg)
+    return names
+
+
+def sinks_frame_columns(F, frame_names=None):
     """`<frame>[k] = e` and dict literals handed to pd.DataFrame(..)/from_dict(..)"""
+    if frame_names is None:
+        frame_names = frame_names_of(F)
     out = []
     for node in ast.walk(F.fn):
         if isinstance(node, ast.Assign) and len(node.targets) == 1 and isinstance(node.targets[0], ast.Subscript) \
@@ -333,13 +349,12 @@ BGL = "fairlearn/reductions/_moments/bounded_group_loss.py"
 
 # (entry label, file, function, sink finder)
 SITES = [
-    ("MetricFrame.__init__", MF, "MetricFrame.__init__", lambda F: sinks_frame_columns(F, {"all_data"})),
-    ("MetricFrame.sample_params", MF, "MetricFrame._construct_annotated_metric_function",
-     lambda F: sinks_frame_columns(F, {"all_data"})),
+    ("MetricFrame.__init__", MF, "MetricFrame.__init__", sinks_frame_columns),
+    ("MetricFrame.sample_params", MF, "MetricFrame._construct_annotated_metric_function", sinks_frame_columns),
     ("AnnotatedMetricFunction.__call__", AMF, "AnnotatedMetricFunction.__call__", sinks_appended),
     ("_validate_and_reformat_input", IV, "_validate_and_reformat_input", sinks_constructors),
     ("ThresholdOptimizer._reformat_data_into_dict", TO, "_reformat_data_into_dict",
-     lambda F: sinks_frame_columns(F, {"data_dict"})),
+     lambda F: sinks_frame_columns(F, {F.params[1]})),          # (key, data_dict, additional_data): the dict by position
     ("DemographicParity.load_data", UP, "DemographicParity.load_data", sinks_super_load_data),
     ("TruePositiveRateParity.load_data", UP, "TruePositiveRateParity.load_data", sinks_super_load_data),
     ("FalsePositiveRateParity.load_data", UP, "FalsePositiveRateParity.load_data", sinks_super_load_data),
@@ -419,8 +434,10 @@ def analyse(repo):
     t = trees[TO]
     rg = find_func(t, "_reformat_and_group_data")
     txt = ast.unparse(rg)
-    if "pd.DataFrame(data_dict)" not in txt or txt.count("_reformat_data_into_dict(") != 3 or "data_dict = {}" not in txt:
-        raise U(f"{TO}:_reformat_and_group_data no longer builds pd.DataFrame(data_dict) from three _reformat_data_into_dict calls")
+    calls = [n for n in ast.walk(rg) if isinstance(n, ast.Call) and call_name(n) == "_reformat_data_into_dict"]
+    dn = {ast.unparse(c.args[1]) for c in calls if len(c.args) == 3}
+    if len(calls) != 3 or len(dn) != 1 or f"pd.DataFrame({list(dn)[0]})" not in txt or f"{list(dn)[0]} = {{}}" not in txt:
+        raise U(f"{TO}:_reformat_and_group_data no longer builds pd.DataFrame(<dict>) from three _reformat_data_into_dict calls")
     it = ast.parse(translate._read(repo, IT))
     pm = Fn(find_func(it, "InterpolatedThresholder._pmf_predict"), f"{IT}:_pmf_predict")
     for nm in ("base_predictions_vector", "sensitive_feature_vector"):
